@@ -32,7 +32,9 @@ type c14Handler struct {
 	oneRecv bool
 }
 
-func c14Err() error { return connect.NewError(connect.CodeFailedPrecondition, errors.New("handler says no")) }
+func c14Err() error {
+	return connect.NewError(connect.CodeFailedPrecondition, errors.New("handler says no"))
+}
 
 func c14Sends(n, size int) []svc.Step {
 	var st []svc.Step
@@ -76,10 +78,10 @@ func c14Handlers() []c14Handler {
 // client programs -------------------------------------------------------------
 
 type c14Client struct {
-	name    string
-	ops     []string
-	cancels bool
-	closes  bool // ends with CR...CP (or the typed API's equivalent)
+	name                  string
+	ops                   []string
+	cancels               bool
+	closes                bool // ends with CR...CP (or the typed API's equivalent)
 	sendsAfterHandlerDone bool
 }
 
